@@ -519,10 +519,11 @@ fn run_flood(rep: &mut Report, seed: u64, rng: &mut StdRng, replay: vcommon::Val
     drop(rt);
     rep.evaluations += 1;
     rep.count("flood_cases");
-    // bytes held = pulled - handshake. Bound: buffer + one frame in transit + per-frame headers
+    // bytes held = pulled - handshake. Bound: the payload the limits allow (the multiplexer takes the size and count permits of a chunk
+    // BEFORE it pulls the chunk from the transport, so no chunk is ever "in transit" outside the limits) + per-frame headers
     let held = pulled.saturating_sub(hs);
     let frames_possible = cfg.read_frame_count + 2;
-    let bound = cfg.read_buffer_size + cfg.read_frame_size + frames_possible * 4 + 64;
+    let bound = cfg.read_buffer_size.min(cfg.read_frame_count * cfg.read_frame_size) + frames_possible * 4 + 64;
     rep.add("flood_bytes_offered", written);
     if variant != 2 {
         rep.max("max_unconsumed_bytes_held", held);
